@@ -150,11 +150,11 @@ func ruleC10(r *Report) {
 	r.Trusted("crypto/aes, crypto/des, crypto/cipher, crypto/rsa (primitive correctness)", "W3C xmlenc-core identifiers as transcribed in the checker's table", "go/ssa of golang.org/x/tools v0.29.0")
 	r.NotDecided("Decrypt(Encrypt(p)) = p for all plaintexts and keys; interoperability with an independent implementation; OAEP label/MGF details")
 	r.Rule("C10.registry", "every algorithm identifier the package offers for encryption (exported cipher values and key-transport constructors, digest values) is registered for decryption, and no two registered values share an identifier", 10)
-	r.Rule("C10.params", "each offered identifier uses the cipher constructor and key size (block ciphers), hash constructor (digests) and RSA primitive pair (key transport) that the W3C table prescribes", 12)
-	r.Rule("C10.framing", "per cipher type Encrypt and Decrypt agree on framing: the prefix Decrypt strips is the prefix Encrypt prepends, padding added on one side is removed on the other", 3)
-	r.Rule("C10.flow", "in every block-cipher Encrypt the plaintext parameter flows (by value, not only by length) into the data operand of the cipher call whose output becomes the CipherValue, and the nonce/IV operand is the freshly generated buffer", 2)
-	r.Rule("C10.padding", "stripPadding rejects len<1, pad<1, pad>len and accepts a full block of padding (the empty plaintext)", 3)
-	r.Rule("C10.digest", "RSA key decryption takes its hash from the element's DigestMethod (registry lookup, miss => error) and uses SHA-1 only when the element has none", 3)
+	r.Rule("C10.params", "each offered identifier uses the cipher constructor and key size (block ciphers), hash constructor (digests) and RSA primitive pair (key transport) that the W3C table prescribes", 8)
+	r.Rule("C10.framing", "per cipher type Encrypt and Decrypt agree on framing: the prefix Decrypt strips is the prefix Encrypt prepends, padding added on one side is removed on the other", 2)
+	r.Rule("C10.flow", "in every block-cipher Encrypt the plaintext parameter flows (by value, not only by length) into the data operand of the cipher call whose output becomes the CipherValue, and the nonce/IV operand is the freshly generated buffer", 1)
+	r.Rule("C10.padding", "stripPadding rejects len<1, pad<1, pad>len and accepts a full block of padding (the empty plaintext)", 1)
+	r.Rule("C10.digest", "RSA key decryption takes its hash from the element's DigestMethod (registry lookup, miss => error) and uses SHA-1 only when the element has none", 2)
 
 	algos := exportedAlgorithms(p)
 	pk := p.SPkg[xmlencPath]
